@@ -61,6 +61,10 @@
      U13 a panic raised inside a range loop or a switch and recovered by a deferred call leaves the statement's temporaries
          on the evaluation stack (the function "returns" extra values)                                         undoc (defect)
          -> dynamic: "oos" when the recovered panic was raised while a range loop / switch was running
+     U14 calls inside a composite literal ([]T{f(), g()}, S{f(), g()}, map[K]V{f(): g()}), inside a return statement with
+         several results and on the two sides of an element assignment (s[f()] = g()) are evaluated right to left
+         (Go: lexical left-to-right order)                                                                     undoc (defect)
+         -> such positions hold expressions without side effects
      G1  order of evaluation between a variable read and a call that modifies the variable                     go
          -> an expression that contains a call with side effects reads no mutable global / heap object directly
      G2  map iteration order                                                                                   go
